@@ -47,9 +47,31 @@ def instrument(h, c, delays, rng):
 def do(m):
     c = m["cmd"]
     if c == "new":
+        if m.get("slow_look"):
+            # this process is descheduled right after it looked whether the library file exists (a loaded machine)
+            import pathlib
+            real = os.path.realpath(m["path"]); looks = []
+            def slow(orig):
+                def f(self, *a, **k):
+                    r = orig(self, *a, **k)
+                    try:
+                        hit = os.path.realpath(os.fspath(self)) == real
+                    except TypeError:
+                        hit = False
+                    if hit:
+                        looks.append(1)
+                        if len(looks) == m.get("look_index", 1):
+                            open(m["marker"], "w").write("x"); time.sleep(m["slow_look"])
+                    return r
+                return f
+            pathlib.Path.is_file = slow(pathlib.Path.is_file); pathlib.Path.exists = slow(pathlib.Path.exists)
+            _oi, _oe = os.path.isfile, os.path.exists
+            os.path.isfile = lambda p_, _f=slow(lambda s_: _oi(s_)): _f(p_)
         col = Collection(m["path"], UkvCollectionBackend, readonly=False, bufsize=m.get("bufsize", -1))
         cols[m["h"]] = col
         instrument(m["h"], col, m.get("delays", {}), random.Random(m.get("seed", 0)))
+        if m.get("slow_look"):
+            return "ok:%d" % len(looks)
         return "ok"
     col = cols[m["h"]]
     if c == "enter":
@@ -83,7 +105,7 @@ def do(m):
                         if op[0] == "put":
                             if fault == "encoder" and op is ops[-1]: raise Boom("encoder")
                             try:
-                                col[op[1]] = bytes.fromhex(op[2]); rec["acked"].append(op[1])
+                                col[op[1]] = bytes.fromhex(op[2]); rec["acked"].append([op[1], op[2]])
                             except KeyError:
                                 rec.setdefault("dups", []).append(op[1])
                         elif op[0] == "readall":
@@ -302,9 +324,8 @@ def free_run(ctx, W, nproc, nsess, aliases):
         for s, rec in enumerate(results[p]):
             if rec.get("exc") and str(rec["exc"]).startswith("unexpected"):
                 viol.append(("C04:free:unexpected-exception", f"process {p} session {s}: {rec['exc']}"))
-            vals = {op[1]: op[2] for op in scripts[p][s][1] if op[0] == "put"}
-            for k in rec["acked"]:
-                written.setdefault(k, []).append(vals[k])
+            for k, vhex in rec["acked"]:          # the value of the put that was acknowledged (a session may try a key twice)
+                written.setdefault(k, []).append(vhex)
                 if k not in disk:
                     viol.append(("C04:free:acknowledged-record-lost", f"put({k!r}) of process {p} session {s} returned normally but the record is not in the library"))
                 elif disk[k] not in written[k]:
@@ -323,3 +344,236 @@ def free_run(ctx, W, nproc, nsess, aliases):
                 elif k in disk and disk[k] != vhex:
                     viol.append(("C04:free:reader-saw-other-bytes", f"process {p} session {s} read {k!r} with bytes that differ from the stored record"))
     return viol, sum(len(r) for r in results), len(iv)
+
+
+# ------------------------------------------------------------------ (c) schedules with a process DEATH
+DHEADER = ("From Coq Require Import NArith List.\nImport ListNotations.\n"
+           "From Molli Require Import Model.UKV Model.Session Model.SessionDeath.\nOpen Scope N_scope.\n")
+
+
+def _out_put(r):
+    return "Done ROk" if r == "ok" else f"Done (RErr {r[4:]})" if r.startswith("err:E") else f"Done ROther (* {r} *)"
+
+
+def _out_get(r):
+    return (f"Done (RVal {U.cq_bytes(bytes.fromhex(r[4:]))})" if r.startswith("val:") and len(r) <= 4 + 48 else
+            f"Done (RVal {U._name_val(bytes.fromhex(r[4:]))})" if r.startswith("val:") else
+            f"Done (RErr {r[4:]})" if r.startswith("err:E") else f"Done ROther (* {r} *)")
+
+
+def _out_keys(r):
+    return ("Done (RKeys [" + ";".join(U.cq_bytes(x.encode()) for x in json.loads(r[5:])) + "])" if r.startswith("keys:")
+            else f"Done ROther (* {r} *)")
+
+
+def death_schedules(ctx, n_scen):
+    """Process 0 is killed with SIGKILL: inside a writing session after k puts (what reached the file is whatever the
+    buffered stream had handed to the OS: an in-order prefix, observed as the file length and given to the model as
+    DMDie's n), inside a reading session, or outside any session.  Processes 1 (reader) and 2 (writer) then go on.
+    Returns (coq cases, metas, violations): outcomes and the final file are compared with Model/SessionDeath.v inside
+    Coq; the oracle judges the implementation alone."""
+    from molli.storage.ukvfile import UKVFile
+    rng = ctx.rng
+    work = ctx.sub("c04death")
+    pw = os.path.join(work, "worker.py")
+    open(pw, "w").write(WORKER)
+    env = dict(os.environ, MOLLI_REPO_DIR=vlib.REPO)
+
+    def spawn():
+        return subprocess.Popen([vlib.PY, pw], stdin=subprocess.PIPE, stdout=subprocess.PIPE, text=True, env=env)
+
+    def call(pr, **m):
+        pr.stdin.write(json.dumps(m) + "\n"); pr.stdin.flush()
+        return pr.stdout.readline().strip()
+    others = [spawn(), spawn()]
+    nxt = spawn()
+    cases, metas, viol = [], [], []
+    sizes = [0, 3, 40, 700, 3000, 5000, 9000, 20000]
+    try:
+        for sc in range(n_scen):
+            victim, nxt = nxt, spawn()
+            path = os.path.join(work, f"d{sc}.ukv")
+            if os.path.exists(path):
+                os.remove(path)
+            UKVFile(path, "x").close()
+            init = open(path, "rb").read()
+            bof = len(init)
+            procs = [victim] + others
+            for q in procs:
+                assert call(q, cmd="new", h=path, path=path) == "ok"
+            labels, outs = [], []
+            kind = ("writer", "writer", "writer", "writer", "reader", "idle", "writer-empty")[sc % 7]
+            committed = {}
+            # a completed session of process 2 first (committed records), in most scenarios
+            if sc % 3 != 2:
+                assert call(others[1], cmd="enter", h=path, w=True, timeout=5.0) == "ok"
+                labels.append("DM (MEnter 2 2 true)"); outs.append("Done ROk")
+                for j in range(rng.randint(1, 2)):
+                    k, v = f"c{j}", U.Val(rng.randrange(256), rng.choice(sizes[:6]))
+                    r = call(others[1], cmd="put", h=path, k=k, v=v.b.hex())
+                    labels.append(f"DM (MDo 2 (Put 2 {U.cq_bytes(k.encode())} {v.coq()}))"); outs.append(_out_put(r))
+                    committed[k] = v.b
+                call(others[1], cmd="exit", h=path); labels.append("DM (MExit 2)"); outs.append("Done ROk")
+            size_committed = os.path.getsize(path)
+            vputs = []
+            if kind.startswith("writer"):
+                r = call(victim, cmd="enter", h=path, w=True, timeout=5.0)
+                labels.append("DM (MEnter 0 0 true)"); outs.append("Done ROk" if r == "ok" else f"Done ROther (* {r} *)")
+                for j in range(0 if kind == "writer-empty" else rng.randint(1, 4)):
+                    k, v = f"v{j}", U.Val(rng.randrange(256) if rng.random() < 0.8 else -1, rng.choice(sizes))
+                    r = call(victim, cmd="put", h=path, k=k, v=v.b.hex())
+                    labels.append(f"DM (MDo 0 (Put 0 {U.cq_bytes(k.encode())} {v.coq()}))"); outs.append(_out_put(r))
+                    vputs.append((k, v.b))
+            elif kind == "reader":
+                r = call(victim, cmd="enter", h=path, w=False, timeout=5.0)
+                labels.append("DM (MEnter 0 0 false)"); outs.append("Done ROk" if r == "ok" else f"Done ROther (* {r} *)")
+                r = call(victim, cmd="keys", h=path); labels.append("DM (MDo 0 (Keys 0))"); outs.append(_out_keys(r))
+            # another process tries to get in while the victim holds the lock: refused (times out)
+            if kind != "idle" and sc % 2 == 0:
+                r = call(others[0], cmd="enter", h=path, w=True, timeout=0.15)
+                labels.append("DM (MEnter 1 1 true)")
+                outs.append("Refused" if r == "err:timeout" else "Done ROk" if r == "ok" else f"Done ROther (* {r} *)")
+                if r == "ok":
+                    call(others[0], cmd="exit", h=path); labels.append("DM (MExit 1)"); outs.append("Done ROk")
+            victim.kill(); victim.wait()
+            n_obs = os.path.getsize(path)
+            # Any shorter prefix (not below the committed image) is a legal crash image too -- the OS might have received
+            # less.  Half of the writer deaths are cut further, at the adversarial offsets: inside a block header, inside
+            # a key, 1..5 bytes before the end of a record.
+            if kind == "writer" and sc % 2 == 1 and n_obs > size_committed:
+                cand, pos = [], size_committed
+                for k, v in vputs:
+                    end = pos + 5 + len(k) + len(v)
+                    cand += [pos + d for d in (1, 2, 3, 4)] + [pos + 5 + max(0, len(k) - 1)] + [end - d for d in (1, 2, 3, 4, 5)]
+                    pos = end
+                cand = sorted({c for c in cand if size_committed <= c <= n_obs})
+                if cand:
+                    n_obs = cand[(sc // 2) % len(cand)] if sc % 4 == 1 else rng.choice(cand)
+                    os.truncate(path, n_obs)
+            labels.append(f"DMDie 0 {n_obs}"); outs.append("Done ROk")
+            if n_obs < size_committed:
+                viol.append(("C04:death:committed-bytes-lost", f"scenario {sc}: the file had {size_committed} bytes after the completed session, "
+                             f"{n_obs} after the death of a later {kind}"))
+            # a reader: sees the committed records and a prefix of the victim's, each exact
+            r = call(others[0], cmd="enter", h=path, w=False, timeout=5.0)
+            labels.append("DM (MEnter 1 1 false)"); outs.append("Done ROk" if r == "ok" else "Refused" if r == "err:timeout" else f"Done ROther (* {r} *)")
+            shown = []
+            if r == "ok":
+                rk = call(others[0], cmd="keys", h=path); labels.append("DM (MDo 1 (Keys 1))"); outs.append(_out_keys(rk))
+                listed = json.loads(rk[5:]) if rk.startswith("keys:") else []
+                for k in committed:
+                    if k not in listed:
+                        viol.append(("C04:death:committed-record-lost", f"scenario {sc} ({kind}): record {k!r} of a completed session is not listed after another process died"))
+                shown = [k for k, _ in vputs if k in listed]
+                if shown != [k for k, _ in vputs][:len(shown)]:
+                    viol.append(("C04:death:not-a-prefix", f"scenario {sc}: of the dead writer's records {[k for k, _ in vputs]} the library shows {shown}"))
+                for k in listed:
+                    rg = call(others[0], cmd="get", h=path, k=k)
+                    labels.append(f"DM (MDo 1 (Get 1 {U.cq_bytes(k.encode())}))"); outs.append(_out_get(rg))
+                    want = committed.get(k, dict(vputs).get(k))
+                    if want is None or rg != "val:" + want.hex():
+                        viol.append(("C04:death:reader-saw-incomplete-record", f"scenario {sc}: get({k!r}) after the death returned {rg[:60]}... "
+                                     f"instead of the {len(want) if want is not None else '?'} bytes that were put"))
+                for k, _ in vputs[len(shown):len(shown) + 1]:
+                    rg = call(others[0], cmd="get", h=path, k=k)
+                    labels.append(f"DM (MDo 1 (Get 1 {U.cq_bytes(k.encode())}))"); outs.append(_out_get(rg))
+                call(others[0], cmd="exit", h=path); labels.append("DM (MExit 1)"); outs.append("Done ROk")
+            else:
+                viol.append(("C04:death:lock-not-released", f"scenario {sc}: after a {kind} process was killed a reader cannot enter: {r}"))
+            # the next writer: re-puts the first record the dead writer did not complete, and a fresh one
+            r = call(others[1], cmd="enter", h=path, w=True, timeout=5.0)
+            labels.append("DM (MEnter 2 2 true)"); outs.append("Done ROk" if r == "ok" else "Refused" if r == "err:timeout" else f"Done ROther (* {r} *)")
+            if r == "ok":
+                todo = [(k, U.Val(rng.randrange(256), rng.choice(sizes[:5]))) for k, _ in vputs[len(shown):len(shown) + 1]]
+                todo.append(("n0", U.Val(rng.randrange(256), rng.choice(sizes[:5]))))
+                if shown:
+                    todo.append((shown[0], U.Val(1, 2)))            # a record the dead writer completed: duplicate
+                for k, v in todo:
+                    rp = call(others[1], cmd="put", h=path, k=k, v=v.b.hex())
+                    labels.append(f"DM (MDo 2 (Put 2 {U.cq_bytes(k.encode())} {v.coq()}))"); outs.append(_out_put(rp))
+                    if rp == "ok":
+                        rg = call(others[1], cmd="get", h=path, k=k)
+                        labels.append(f"DM (MDo 2 (Get 2 {U.cq_bytes(k.encode())}))"); outs.append(_out_get(rg))
+                        if rg != "val:" + v.b.hex():
+                            viol.append(("C04:death:append-after-recovery-wrong", f"scenario {sc}: put({k!r}) after the recovery reads back as {rg[:60]}"))
+                    elif k not in shown:
+                        viol.append(("C04:death:append-after-recovery-refused", f"scenario {sc}: put({k!r}) after the recovery failed: {rp}"))
+                call(others[1], cmd="exit", h=path); labels.append("DM (MExit 2)"); outs.append("Done ROk")
+            else:
+                viol.append(("C04:death:lock-not-released", f"scenario {sc}: after a {kind} process was killed a writer cannot enter: {r}"))
+            final = open(path, "rb").read()
+            recs, torn = U.parse_file(final, bof)
+            if torn:
+                viol.append(("C04:death:torn-tail-survives-writer", f"scenario {sc}: the file still ends in an incomplete block after a completed writing session"))
+            cases.append(f"(({U.bytes_coq(init, bof)}, 3%nat, [{'; '.join(labels)}]), ([{'; '.join(outs)}], {U.bytes_coq(final, bof)}))")
+            metas.append(dict(scenario=sc, kind=kind, labels=labels, outcomes=outs, cut=n_obs - size_committed,
+                              session_bytes=sum(5 + len(k) + len(v) for k, v in vputs), shown=len(shown), puts=len(vputs)))
+            os.remove(path)
+    finally:
+        for q in others + [nxt]:
+            try:
+                q.kill()
+            except Exception:
+                pass
+    return cases, metas, viol
+
+
+# ------------------------------------------------------------------ (d) two processes create the same fresh library
+def creation_race(ctx, k):
+    """Process A opens a library that does not exist yet and is slow right after it looked for the file (its j-th look,
+    for every j it makes); meanwhile process B opens it too and completes a writing session; then A completes one.
+    Both records must be there."""
+    work = ctx.sub("c04create")
+    pw = os.path.join(work, "worker.py")
+    open(pw, "w").write(WORKER)
+    env = dict(os.environ, MOLLI_REPO_DIR=vlib.REPO)
+    viol, raced, j, nlooks = [], 0, 1, 1
+    while j <= min(nlooks, 6):
+        path = os.path.join(work, f"fresh{k}_{j}.ukv"); marker = os.path.join(work, f"looked{k}_{j}")
+        for f in (path, marker):
+            if os.path.exists(f):
+                os.remove(f)
+        A, B = [subprocess.Popen([vlib.PY, pw], stdin=subprocess.PIPE, stdout=subprocess.PIPE, text=True, env=env) for _ in range(2)]
+
+        def send(pr, **m):
+            pr.stdin.write(json.dumps(m) + "\n"); pr.stdin.flush()
+
+        def call(pr, **m):
+            send(pr, **m); return pr.stdout.readline().strip()
+        try:
+            send(A, cmd="new", h=path, path=path, slow_look=0.5, marker=marker, look_index=j)
+            t0 = time.time()
+            while not os.path.exists(marker) and time.time() - t0 < 5 and A.poll() is None:
+                time.sleep(0.01)
+            raced += os.path.exists(marker)
+            rb = [call(B, cmd="new", h=path, path=path), call(B, cmd="enter", h=path, w=True, timeout=10.0),
+                  call(B, cmd="put", h=path, k="from_B", v=(b"b" * 100).hex()), call(B, cmd="exit", h=path)]
+            ra0 = A.stdout.readline().strip()
+            if ra0.startswith("ok:"):
+                nlooks = max(nlooks, int(ra0[3:])); ra0 = "ok"
+            ra = [ra0, call(A, cmd="enter", h=path, w=True, timeout=10.0),
+                  call(A, cmd="put", h=path, k="from_A", v=(b"a" * 101).hex()), call(A, cmd="exit", h=path)]
+            C = subprocess.Popen([vlib.PY, pw], stdin=subprocess.PIPE, stdout=subprocess.PIPE, text=True, env=env)
+            try:
+                rk = [call(C, cmd="new", h=path, path=path), call(C, cmd="enter", h=path, w=False, timeout=10.0), call(C, cmd="keys", h=path),
+                      call(C, cmd="exit", h=path)]
+            finally:
+                C.kill()
+            if os.environ.get("C04_DEBUG"): print("race:", j, nlooks, rb, ra, rk)
+            if any(r != "ok" for r in rb + ra) or rk[1] != "ok" or not rk[2].startswith("keys:"):
+                viol.append(("C04:create:session-failed", f"creation race (look {j}): B {rb}, A {ra}, reader {rk}"))
+            else:
+                keys = json.loads(rk[2][5:])
+                for want in ("from_A", "from_B"):
+                    if want not in keys:
+                        viol.append(("C04:create:record-of-completed-session-lost",
+                                     f"two processes opened the same not-yet-existing library; B completed a writing session (record 'from_B') while A "
+                                     f"was between its look #{j} for the file and its creation; afterwards a fresh handle lists {keys}: {want!r} is lost"))
+        finally:
+            for q in (A, B):
+                try:
+                    q.kill()
+                except Exception:
+                    pass
+        j += 1
+    return viol, raced
